@@ -79,7 +79,8 @@ CHECKS = {
         "non_intrinsic/two USEs in either order, USE at module level, in the probing procedure or in a nested internal procedure); "
         "the consumer probes every candidate name (type(n), procedure(n) pointer, namelist member, call, function reference); the "
         "object found in each probe slot (recorder on _find_chain_item for calls) is compared with an independent implementation of "
-        "F2008 11.2.2; the order in which files are parsed is injected through the file names (FORD parses in sorted path order; sampled permutations, all in thorough); separate cases use two modules exporting equal names with textually identical ONLY lists.",
+        "F2008 11.2.2; the order in which files are parsed is injected through the file names (FORD parses in sorted path order; sampled permutations, all in thorough); separate cases use two modules exporting equal names with textually identical ONLY lists. A fifth probing place is the body of a named (generic) interface; "
+        "the name tables of the probing scope are read as hooked state (every accessible name stands in the table of each kind it denotes).",
         "Trusts imports()/exports() in checks/c06.py as the standard's rule; unique entity names; one known finding (several USE "
         "statements of one module applied independently) is suppressed only where an alternative per-statement model predicts "
         "exactly the observed object.",
@@ -130,7 +131,8 @@ CHECKS = {
         "page; (d) after the run: distinct page-owning entities have distinct URLs (case-insensitively), the page at an entity's URL "
         "carries its tracer word, the source-file link of every page serves the defining file. Workload: projects built to collide (same names across modules/"
         "files/directories, letter-case variants, operator/assignment interfaces, generics with explicit bodies, unnamed programs/block "
-        "data, submodule named like a module, equal file base names).",
+        "data, submodule named like a module, separate module procedures named like procedures elsewhere, equal file base names). Thorough tier: the contract "
+        "also runs under the repository's own test-suite (vf/pytest_contracts.py).",
         "Only writes below the entity directories are counted (css/js are touch()ed by design); one known finding (flat src/ copies of "
         "equal base names) is suppressed by an exact predicate.",
         "runtime monitoring: audit-hook fs event log + icontract invariant on NameSelector + offline site checks",
@@ -158,9 +160,10 @@ CHECKS = {
         "show_proc_parent. The DOT body of every per-entity and project-wide graph object of the real Documentation is compared with "
         "the hop-wise ball of the model relation; edge endpoints must be nodes; untruncated forward/inverse graphs must be inverses; at "
         "the quiescent point after graph_all() the inverse adjacency sets of all node objects are checked for consistency; graph:false "
-        "entities own no graphs.",
+        "entities own no graphs. Private procedures under a display without `private` are not drawn (a call of one stands, transitively, for its calls). Two monitors on the "
+        "rendered output: a graph shown as a table has one row per first-hop edge, and every non-empty graph object is found on the page of its entity.",
         "Per-entity graphs in which a graph:false entity takes part are not judged (documentation leaves it open); one known finding "
-        "(graph:false entity drawn as a neighbour in project-wide graphs); display includes private; no type-bound/internal procedures.",
+        "(graph:false entity drawn as a neighbour in project-wide graphs); no type-bound procedures; internal functions only as callers.",
         "runtime monitoring: reference-model oracle over captured DOT sources + invariant check at a quiescent hook",
         "3/C13",
     ),
@@ -270,7 +273,8 @@ CHECKS = {
         "(introspected at run time) x representative/boundary values is written as project-file metadata, fpm.toml [extra.ford] and "
         "--config and loaded from three working directories (with decoy paths in the foreign ones); the resulting settings objects "
         "are compared across formats/cwds and with a reference semantics; CLI>file>default per argparse option; unknown keys and "
-        "ill-typed values per format; icontract post-condition on convert_setting (result conforms to the declared type).",
+        "ill-typed values per format; icontract post-condition on convert_setting (result conforms to the declared type); a second Markdown spelling of every option "
+        "set (fences, key case, repeated keys, padded fields, empty key line for tables); thorough tier: the contract also runs under the repository's own test-suite.",
         "Trusts the harness' three renderers to express the same option set; values avoid ';' and leading/trailing blanks; one "
         "known finding (--config skips __post_init__ normalisation) is suppressed only for differences confined to the fields "
         "__post_init__ normalises.",
